@@ -74,6 +74,13 @@ pub fn gen_keys(rng: &mut Rng, n: usize, subdirs: bool) -> Vec<String> {
         } else if rng.chance(1, 24) {
             // a time of day in front (digits, a colon, no space): a scheme begins with a letter, so this is a note too
             format!("10:30-n{}", i + 1)
+        } else if rng.chance(1, 24) {
+            // a name that reads like an address with a scheme (no space after the colon): linked as "./topic:n5" from its
+            // own directory
+            format!("topic:n{}", i + 1)
+        } else if rng.chance(1, 24) {
+            // a name with dots: with refs_extension a block reference to it still gets the extension
+            format!("node.v{}.js", i + 1)
         } else {
             format!("n{}", i + 1)
         };
@@ -110,8 +117,9 @@ fn targets_for(from: &str, keys: &[String], o: &LibOpts, rng: &mut Rng) -> (Vec<
             dest: dest.clone(),
             external: false,
         });
-        // inline links are keyed by their raw url: only root-level sources are clean
-        if o.inline_internal && (o.cross_dir_inline || dir.is_empty()) {
+        // inline links are keyed by their raw url: only root-level sources are clean - and only names that need no "./" in
+        // front (an inline "./topic:n5" is keyed "./topic:n5", the same raw-url finding)
+        if o.inline_internal && (o.cross_dir_inline || dir.is_empty()) && !dest.starts_with("./") {
             inline_targets.push(Target {
                 dest,
                 external: false,
@@ -136,7 +144,7 @@ fn targets_for(from: &str, keys: &[String], o: &LibOpts, rng: &mut Rng) -> (Vec<
     }
     if o.foreign {
         // (also addresses with a second colon: a port, a colon in the path, a URN)
-        for e in ["zotero://select/items/A1", "file:///home/me/scan.pdf", "/assets/handbook.pdf", "tel:+123", "ftp://host/file", "http://localhost:8080/docs", "https://en.wikipedia.org/wiki/Help:Contents", "urn:isbn:0451450523", "s3://my-bucket/notes/backup", "ed2k://server/share/file", "", "assets/", "..", "./"] {
+        for e in ["zotero://select/items/A1", "file:///home/me/scan.pdf", "/assets/handbook.pdf", "tel:+123", "ftp://host/file", "http://localhost:8080/docs", "https://en.wikipedia.org/wiki/Help:Contents", "urn:isbn:0451450523", "s3://my-bucket/notes/backup", "ed2k://server/share/file", "https://example.com/wiki/My Page", "zotero://select/items/My Item", "https://example.com/items?filter[status]=open", "", "assets/", "..", "./"] {
             inline_targets.push(Target { dest: e.to_string(), external: true });
         }
         if o.inline_internal && (o.cross_dir_inline || dir.is_empty()) {
